@@ -40,6 +40,21 @@ def handle (fields : List String) : String :=
   | ["s.canon", a] => withSpec a fun x => showB (decide x.Canon)
   | ["s.mem", a, v] => withSpec a fun x =>
       match parseVer v with | some w => showB (decide (x.mem w)) | none => bad
+  -- text layer (C06, C04, C17)
+  | ["t.parse", txt] =>
+      match parseAltsText txt with
+      | none => "undecodable"
+      | some alts => match parseAlts alts with | some r => showSpec r | none => "crash"
+  | ["t.str", a] => withSpec a fun x => showSText x.str
+  | ["t.simple", a] => withSpec a fun x => showB x.isSimple
+  | ["t.contains", a, v] => withSpec a fun x =>
+      match parseVer v with
+      | some w => (match x.containsFinal w with | some b => showB b | none => "invalid")
+      | none => bad
+  | ["t.match", c, v] =>
+      match parseClauseL c.toList, parseVer v with
+      | some cl, some w => match Pep440.matchesFinal cl w with | some b => showB b | none => "invalid"
+      | _, _ => bad
   | ["v.le", a, b] =>
       match parseVer a, parseVer b with
       | some x, some y => showB (decide (LinPre.le x y))
